@@ -152,6 +152,7 @@ impl NameCompressor {
 
         let mut parent = 64u8;
         let mut parent_offset = None;
+        let mut partial = false;
 
         // Repeatedly look up entries that could be used for compression.
         while !name.is_empty() {
@@ -168,6 +169,14 @@ impl NameCompressor {
                     if use_pos < 16383 + 253 {
                         self.last_use[parent as usize] = use_pos as u16;
                     }
+
+                    // If only a suffix of the entry matched, the entry's
+                    // children are not children of that suffix: stop here,
+                    // and do not record the rest as a child of the entry.
+                    if tmp != self.pos[parent as usize] {
+                        partial = true;
+                        break;
+                    }
                 }
                 None => break,
             }
@@ -175,7 +184,7 @@ impl NameCompressor {
 
         // If there is a non-empty uncompressed prefix, register it as a new
         // entry here.
-        if !name.is_empty() && contents.len() + 12 < 16384 {
+        if !name.is_empty() && !partial && contents.len() + 12 < 16384 {
             // SAFETY: 'name' is a non-empty sequence of labels.
             let first = unsafe {
                 LabelIter::new_unchecked(name).next().unwrap_unchecked()
@@ -320,6 +329,7 @@ impl NameCompressor {
         let mut hash = Self::hash_label(Self::last_label(name));
         let mut parent = 64u8;
         let mut parent_offset = None;
+        let mut partial = false;
 
         // Repeatedly look up entries that could be used for compression.
         while !name.is_empty() {
@@ -336,6 +346,14 @@ impl NameCompressor {
                     if use_pos < 16383 + 253 {
                         self.last_use[parent as usize] = use_pos as u16;
                     }
+
+                    // If only a suffix of the entry matched, the entry's
+                    // children are not children of that suffix: stop here,
+                    // and do not record the rest as a child of the entry.
+                    if tmp != self.pos[parent as usize] {
+                        partial = true;
+                        break;
+                    }
                 }
                 None => break,
             }
@@ -343,7 +361,7 @@ impl NameCompressor {
 
         // If there is a non-empty uncompressed prefix, register it as a new
         // entry here. We already know what the hash of its last label is.
-        if !name.is_empty() && contents.len() + 12 < 16384 {
+        if !name.is_empty() && !partial && contents.len() + 12 < 16384 {
             // Pick the entry that was least recently used (or uninitialized).
             //
             // By the invariants of 'last_use', it is guaranteed that this
